@@ -1823,6 +1823,45 @@ def _rule5(ctx, rep):
         )
 
 
+def _rule6(ctx, rep):
+    """the gate judges every package of the engine (added after seeded change C16-6: pl.scan.advanced_factories skipped a
+    task module whose import raised ImportError; no rule ran for it and `python -m dawgie.tools.compliant` exited 0)"""
+    prog = ctx.prog
+    with rep.rule(
+        'R-C16-6',
+        'the scan is total: an exception raised while a task module is imported in dawgie.pl.scan propagates (no handler around importlib.import_module that swallows it), so a package that cannot be imported fails the gate instead of vanishing from it',
+        floor=2,
+        breaks='a package that breaks the architecture so badly that it cannot even be imported is silently left out of the verification: the gate accepts the engine',
+    ) as r:
+        sites = 0
+        for q, raw in sorted(prog.funcs.items()):
+            if raw.module.name != 'dawgie.pl.scan':
+                continue
+            f = prog.nfunc(q)
+            for c in f.calls():
+                if not ((prog.resolve_in(c.func, f) or '').endswith('importlib.import_module') or (isinstance(c.func, ast.Attribute) and c.func.attr == 'import_module')):
+                    continue
+                sites += 1
+                r.instance()
+                rep.analysed(f)
+                swallowing = []
+                for t in f.own_nodes():
+                    if isinstance(t, ast.Try) and any(x is c for b in t.body for x in ast.walk(b)):
+                        for h in t.handlers:
+                            reraises = any(isinstance(x, ast.Raise) for b in h.body for x in ast.walk(b))
+                            if not reraises:
+                                swallowing.append(h)
+                r.check(
+                    not swallowing,
+                    f'{q}:{norm(c)[:50]}:import-errors-propagate',
+                    where(f, swallowing[0] if swallowing else c),
+                    'no swallowing handler around the import of a task module',
+                    f'{q}: an exception of {norm(c)[:50]} is caught by `except {norm(swallowing[0].type) if swallowing and swallowing[0].type is not None else ""}` and not re-raised: the package disappears from the scan and is never verified',
+                )
+        if not sites:
+            raise AnalysisError('dawgie.pl.scan no longer imports the task modules with importlib.import_module')
+
+
 def check(ctx):
     rep = Report(
         PID,
@@ -1856,6 +1895,7 @@ def check(ctx):
     _rule3(ctx, rep, sh)
     _rule4(ctx, rep)
     _rule5(ctx, rep)
+    _rule6(ctx, rep)
     return rep
 
 
@@ -1945,6 +1985,8 @@ _WALK_LOOP_HELPER = """def visit(product, ifroutine, inputs):
     return"""
 
 VARIANTS = [
+    V('scanner skips modules it cannot import', 'B', 'pl/scan.py', 'advanced_factories', 'm = importlib.import_module(modinfo.name)', 'try:\n                    m = importlib.import_module(modinfo.name)\n                except ImportError:\n                    continue', 'R-C16-6'),
+    V('scanner logs and re-raises', 'N', 'pl/scan.py', 'advanced_factories', 'm = importlib.import_module(modinfo.name)', 'try:\n                    m = importlib.import_module(modinfo.name)\n                except ImportError:\n                    LOG.error(modinfo.name)\n                    raise', None),
     V('AE root appended to sys.path', 'B', 'tools/compliant.py', 'main', 'sys.path.insert(\n        0, ', 'sys.path.insert(\n        len(sys.path), ', 'R-C16-5'),
     V('rule_07 only dumps', 'B', 'tools/compliant.py', 'rule_07', 's = pickle.dumps(v)\n            vp = pickle.loads(s)  # noqa: F841', 'pickle.dumps(v)', 'R-C16-4'),
     V('rule_07 round trip in one expression', 'N', 'tools/compliant.py', 'rule_07', 's = pickle.dumps(v)\n            vp = pickle.loads(s)  # noqa: F841', 'pickle.loads(pickle.dumps(v))', None),
